@@ -13,7 +13,7 @@ ASSUMPTIONS = ["reference vf/ref/ec.py + hashlib", "BSM signing is modelled as d
 NSHARDS = {"quick": 32, "thorough": 64}
 BUDGET_S = {"quick": 200, "thorough": 1800}
 MIN_HITS = {
-    'quick': {"sign": 128, "prefix_nonzero": 85, "len>=253": 80, "len>=65536": 32, "neg": 2256, "uncompressed": 57},
+    'quick': {"sign": 128, "prefix_nonzero": 85, "len>=253": 80, "len>=65536": 32, "neg": 2512, "uncompressed": 57},
     'thorough': {"sign": 15360, "prefix_nonzero": 10260, "len>=253": 5502, "len>=65536": 230, "neg": 245367, "uncompressed": 6178},
 }
 EDGE = [1, 2, 3, (ec.N - 1) // 2, (ec.N + 1) // 2, ec.N - 2, ec.N - 1]
